@@ -311,9 +311,11 @@ def cut_loop(I: Interp, node, fr: Frame, o: int, spec: dict, seq: Optional[Seq],
         else:
             mframe = fr
         havoc(I, mods, mframe)
-        a2 = st.fresh("alloc", smt.I)
-        st.assume(a2 >= st.alloc)
-        st.alloc = a2
+        topc = st.cfg.get("contract")
+        if spec.get("allocates", topc.allocates if topc is not None else True):
+            a2 = st.fresh("alloc", smt.I)
+            st.assume(a2 >= st.alloc)
+            st.alloc = a2
         head_heap = dict(st.heap)
         head_alloc = st.alloc
         iv = st.fresh("iter", smt.I)
@@ -322,6 +324,8 @@ def cut_loop(I: Interp, node, fr: Frame, o: int, spec: dict, seq: Optional[Seq],
             st.assume(iv <= seq.n)
         fr.locals[idx] = SV(smt.mk_int(iv), T.INT)
         assume_invs()
+        if st.solver.check() == z3.unsat:
+            raise Refuse(f"loop invariant at line {line} is inconsistent with the loop-head state: vacuous proof refused")
         if k == 0:
             if seq is not None:
                 st.assume(iv < seq.n)
